@@ -309,6 +309,8 @@ class ElectionProfile:
             self._bltParse(data)
         except StopIteration:
             raise ElectionProfileError('bad blt file: unexpected end-of-file')
+        except ValueError as err:   # int() refuses decimal strings beyond the interpreter's digit limit
+            raise ElectionProfileError('bad blt file: %s' % err)
 
     def _bltParse(self, data):
         '''
